@@ -130,6 +130,17 @@ def observe(ttb, np, r):
         o["kind"] = "sparse"
         o["subs_shape"] = [int(d) for d in np.asarray(r.subs).shape]
         o["subs_integral"] = bool(np.asarray(r.subs).size == 0 or np.all(np.asarray(r.subs) == np.asarray(r.subs).astype(int)))
+        # strict: a result that stores at least one row must hold it in an INTEGER array (float64 subscripts with integral
+        # values make full() / indexing raise); and expanding the result must not raise (follow-up step on every sparse result)
+        o["subs_dtype"] = str(np.asarray(r.subs).dtype)
+        o["subs_dtype_int"] = bool(np.asarray(r.subs).size == 0 or np.issubdtype(np.asarray(r.subs).dtype, np.integer))
+        try:
+            with np.errstate(all="ignore"):
+                f = r.full()
+            o["full_ok"] = bool(tuple(f.shape) == tuple(r.shape))
+        except Exception as ex:
+            o["full_ok"] = False
+            o["full_exc"] = f"{type(ex).__name__}: {str(ex)[:120]}"
         return o
     if isinstance(r, ttb.tensor):
         o = tgen.obs_dense(np, r)
@@ -202,6 +213,10 @@ def judge(o, shape, want, zeros_ok=False):
     p = wf_problems(o, shape, zeros_ok)
     if p:
         return "ill-formed sparse result: " + p
+    if not o.get("subs_dtype_int", True):
+        return f"sparse result stores its subscripts in an array of dtype {o.get('subs_dtype')} (not an integer type)"
+    if not o.get("full_ok", True):
+        return f"expanding the sparse result with full() fails: {o.get('full_exc')}"
     d = {tuple(s): v for s, v in zip(o["subs"], o["vals"])}
     for s, w in zip(tgen.all_subs(shape), want):
         g = d.get(tuple(s), 0)
@@ -275,3 +290,147 @@ def permutations_of(n, rng, limit_all=4, nrand=3):
         rng.shuffle(p)
         out.append(p)
     return out
+
+
+# ---------------------------------------------------------------------------------------------
+# wave 3: memory layouts of the operands, two-step histories, operands observed after the call
+# ---------------------------------------------------------------------------------------------
+UNARY = ("neg", "not", "ones")
+
+
+def lay2d(np, arr, how):
+    """the same 2-d array in another memory layout: F-contiguous, C-contiguous or a non-contiguous strided view"""
+    if how == "F":
+        return np.asfortranarray(arr)
+    if how == "C":
+        return np.ascontiguousarray(arr)
+    if how == "view":
+        big = np.zeros((2 * arr.shape[0] + 1, 2 * arr.shape[1] + 1), dtype=arr.dtype)
+        big[1::2, 1::2] = arr
+        return big[1::2, 1::2]
+    return arr
+
+
+def mk_sp_layout(ttb, np, shape, subs, vals, lay):
+    s = np.array(subs, dtype=int).reshape((len(subs), len(shape)))
+    v = np.array(vals, dtype=float).reshape((len(vals), 1))
+    if not lay:
+        return ttb.sptensor(s, v, tuple(shape), copy=True)
+    return ttb.sptensor(lay2d(np, s, lay.get("sub")), lay2d(np, v, lay.get("val")), tuple(shape), copy=False)
+
+
+def mk_dense_layout(ttb, np, shape, data, how):
+    T = tgen.mk_tensor(ttb, np, shape, data)
+    if how == "C":
+        T.data = np.ascontiguousarray(T.data)
+    elif how == "view":
+        big = np.zeros(tuple(2 * d + 1 for d in T.data.shape), dtype=T.data.dtype)
+        sl = tuple(slice(1, None, 2) for _ in T.data.shape)
+        big[sl] = T.data
+        T.data = big[sl]
+    return T
+
+
+def raw_sparse(np, S, nshape):
+    subs = np.asarray(S.subs)
+    rows = [] if subs.size == 0 else [[int(x) for x in r] for r in subs.reshape((-1, nshape))]
+    return rows, [tgen.exact(x) for x in np.asarray(S.vals).ravel()]
+
+
+def run_history(op, a):
+    """one request, possibly two chained public operations `(A op1 R1) op2 R2` on the SAME Python objects
+    (R2 may be A or R1 again); records the raw result of every step and whether the operands still hold
+    the lists they were built from."""
+    import logging
+    import numpy as np
+    import pyttb as ttb
+    logging.disable(logging.WARNING)   # pyttb logs a warning for every dense operand that is not F-ordered
+    try:
+        lay = a.get("layout") or {}
+        shape = a["shape"]
+        S = mk_sp_layout(ttb, np, shape, a["subs"], a["vals"], lay.get("A"))
+        R = None
+        if "rk" in a:
+            if a["rk"] == "scalar":
+                R = a["c"]
+            elif a["rk"] == "dense":
+                R = mk_dense_layout(ttb, np, shape, a["bd"], lay.get("dense"))
+            else:
+                R = mk_sp_layout(ttb, np, shape, a["bsubs"], a["bvals"], lay.get("B"))
+        ops = op.split(":")[1:] if op.startswith("then:") else [op]
+        out = {"kind": "steps", "steps": []}
+        with np.errstate(all="ignore"):
+            r = apply_op(ttb, np, ops[0], S, R)
+            out["steps"].append(observe(ttb, np, r))
+            if len(ops) == 2:
+                r2 = a["r2"]
+                if r2["k"] == "un":
+                    R2 = None
+                elif r2["k"] == "scalar":
+                    R2 = r2["c"]
+                elif r2["k"] == "A":
+                    R2 = S
+                else:
+                    R2 = R
+                q = apply_op(ttb, np, ops[1], r, R2)
+                out["steps"].append(observe(ttb, np, q))
+        sa, va = raw_sparse(np, S, len(shape))
+        intact = sa == [list(x) for x in a["subs"]] and va == list(a["vals"]) and tuple(S.shape) == tuple(shape)
+        if a.get("rk") == "sparse":
+            sb, vb = raw_sparse(np, R, len(shape))
+            intact = intact and sb == [list(x) for x in a["bsubs"]] and vb == list(a["bvals"])
+        elif a.get("rk") == "dense":
+            intact = intact and [tgen.exact(x) for x in np.ravel(R.data, order="F")] == list(a["bd"])
+        out["intact"] = bool(intact)
+        return out
+    except Exception as ex:
+        return {"exc": type(ex).__name__, "msg": str(ex)[:160]}
+    finally:
+        logging.disable(logging.NOTSET)
+
+
+def r2_dense(a, first):
+    """F-order list of the second step's right-hand side (`first` = F-order list of the first step's meaning)"""
+    r2 = a["r2"]
+    n = math.prod(a["shape"])
+    if r2["k"] == "scalar":
+        return [r2["c"]] * n
+    if r2["k"] == "A":
+        return dense_of(a["shape"], a["subs"], a["vals"])
+    return rhs_dense(a)
+
+
+def apply_dense(op, X, Y=None):
+    """element-wise meaning of one operator on F-order lists (pure python)"""
+    if op == "neg":
+        return [-x for x in X]
+    if op == "not":
+        return [int(x == 0) for x in X]
+    if op == "ones":
+        return [int(x != 0) for x in X]
+    f = pyop(op)
+    return [f(x, y) for x, y in zip(X, Y)]
+
+
+def expected_steps(op, a):
+    """the element-wise meaning after every step of the request (list of F-order lists)"""
+    ops = op.split(":")[1:] if op.startswith("then:") else [op]
+    first = expected_dense(ops[0], a)
+    if len(ops) == 1:
+        return [first]
+    if ops[1] in UNARY:
+        return [first, apply_dense(ops[1], first)]
+    return [first, apply_dense(ops[1], first, r2_dense(a, first))]
+
+
+def judge_steps(o, op, a, zeros_ok=False):
+    if "exc" in o:
+        return f"admissible request raised {o['exc']}: {o.get('msg')}"
+    ops = op.split(":")[1:] if op.startswith("then:") else [op]
+    for k, (st, want) in enumerate(zip(o["steps"], expected_steps(op, a))):
+        p = judge(st, a["shape"], want, zeros_ok)
+        if p:
+            return f"step {k + 1} ({ops[k]}): " + p
+    if not o.get("intact", True):
+        return "an operand no longer holds the subscripts / values it was built from after the call"
+    return None
